@@ -52,7 +52,7 @@ pub fn with_timeout<T: Send + 'static>(secs: u64, f: impl FnOnce() -> T + Send +
 /// Which end-of-data search `content::inline_image` of the tree under test uses: `"lf"` = `seek_substr("\nEI")`
 /// (model `inlineImage`), `"ei"` = white-space followed by the token `EI` (repo commit 4386f8d of the C08
 /// follow-up, model `inlineImageEI`). One of the two mirrors the code; set it when that commit is merged.
-const INLINE_SEARCH: &str = "lf";
+const INLINE_SEARCH: &str = "ei";
 
 /// (the environment variable C01_INLINE_SEARCH overrides the constant: for trying a tree before it is merged)
 fn inline_search() -> String {
